@@ -24,13 +24,13 @@ CHECKS = {
             "Every sampled single-field edit of signed metadata that changes the parsed value must invalidate the kept signatures; near-collision string families are compared pairwise through signature->value and bytes->value dictionaries.",
             "ed25519 determinism; library PartialEq defines 'unequal parsed values'", "5 C05"),
     "C06": ("exploration", "three-valued clock-interval monitor over expiry sweeps",
-            "Expiry instants at controlled offsets from the real clock in every RFC 3339 notation, at top level and in delegated layouts (also next to other evidence), with and without a summary name, with the verifying process in other time zones and with SOURCE_DATE_EPOCH/FAKETIME set, and after other verifications in the same process; Ok after expiry (w.r.t. the logged call interval) is a violation.",
+            "Expiry instants at controlled offsets from the real clock in every RFC 3339 notation, at top level and in delegated layouts (also next to other evidence), with and without a summary name, with the verifying process in other time zones and with SOURCE_DATE_EPOCH/FAKETIME set, after other verifications in the same process, and while another verification runs on a second thread of the process; Ok after expiry (w.r.t. the logged call interval) is a violation.",
             "real clock only (sweep of the expiry instead of the clock); expiry instant known by construction", "5 C06"),
     "C07": ("exploration", "reference-oracle monitor with repetition over fresh hash seeds",
             "Multi-party steps with one dissenting link in one aspect (17 kinds incl. digest-less entries and respelled paths), dissenter at smallest/middle/largest key id, optionally co-signing another link, 8 repetitions each; delegated dissent through identical sub-layouts with differing directories.",
             "validity of links by construction", "5 C07"),
     "C08": ("fault_enumeration", "fault enumeration observed through the inspection command's own side effects",
-            "Complete grid failing stage (23) x inspection outcome (10) x rule set (6) x 1-2 inspections x level; each cell is one real verification in a fresh working directory; the inspection command records that it ran.",
+            "Complete grid failing stage (26, incl. 'expired meanwhile') x inspection outcome (10) x rule set (7) x 1-2 inspections x level; each cell is one real verification in a fresh working directory; the inspection command records that it ran.",
             "/bin/sh present; stage ground truth by construction", "5 C08"),
     "C09": ("exploration", "round-trip monitor with negative controls",
             "sign (3 construction paths) -> 4 writers -> parse -> verify(#signers) must hold for hostile content and every key type; other key / bit flip / other PSS scheme must fail.",
@@ -45,7 +45,7 @@ CHECKS = {
             "Every public-key construction path for pool keys (RSA moduli of 50 sizes from 2048 to 8192 bits; thorough: +120 fresh OpenSSL keys): ids equal across paths, equal to an independent SHA-256 of the reference encoding, stable across JSON; OpenSSL's SPKI must import and re-export byte-identically; parsed key tables and end-to-end aliasing scenarios.",
             "OpenSSL's SubjectPublicKeyInfo is the standards-conformant reference; olpc_canon + SHA-256 in Python", "5 C12"),
     "C14": ("exploration", "crash monitor (catch_unwind + supervised sub-processes) + ASan, valgrind memcheck, Miri and libFuzzer passes",
-            "28 entry points + rule application + final-product verification over hostile link directories, fed random bytes, byte/JSON mutations and well-typed adversarial documents; process death / CPU-limit kills are reproduced in isolation; thorough repeats the corpus under ASan, plain release, valgrind and Miri and runs 4 coverage-guided fuzz targets.",
+            "28 entry points (incl. well-formed degenerate keys) + rule application + final-product verification over hostile link directories, fed random bytes, byte/JSON mutations and well-typed adversarial documents; process death / CPU-limit kills are reproduced in isolation; thorough repeats the corpus under ASan, plain release, valgrind and Miri and runs 4 coverage-guided fuzz targets.",
             "panic / abort / CPU-limit are the crash events; ring's C/asm is not instrumented by ASan and not reachable by Miri; wall-clock watchdogs are inconclusive", "5 C14"),
     "C16": ("exploration", "round-trip monitor over schema-generated documents with tree comparison",
             "Accepted documents of every wire type: 4 writers x (parse back equal, re-serialise byte-identical) and comparison of the re-serialised tree with the input after the documented normalisations.",
@@ -60,10 +60,10 @@ CHECKS = {
             "Documents from the wire schemas of all statement/predicate versions incl. every optional-field subset and every (declared, actual) type pair: exactly one accepting version, canonical form parses back equal (timestamps to the nanosecond), declared==actual, from_meta carries fields over.",
             "generator schemas transliterate the serde attributes; hook per-version parsers are the library's own", "5 C19"),
     "C13": ("exploration", "repetition monitor over fresh hash seeds and fresh processes",
-            "Order-sensitive scenarios (surplus differing links, co-signed files, one key under two ids, key ids in capitals or sharing their short form, 144 failing verifications in between, interacting inspections and sub-layouts, directory enumeration order on two file systems, histories) verified R x P times (up to 2500 per scenario); exactly one (verdict, summary) outcome allowed; distinct iteration / enumeration orders actually experienced are recorded.",
+            "Order-sensitive scenarios (surplus differing links, co-signed files, one key under two ids, key ids in capitals or sharing their short form, 144 failing verifications in between, interacting inspections and sub-layouts, directory enumeration order on two file systems, histories, key forms across processes, a concurrent neighbour call) verified R x P times (up to 2500 per scenario); exactly one (verdict, summary) outcome allowed; distinct iteration / enumeration orders actually experienced are recorded.",
             "std RandomState gives fresh keys per map/process", "5 C13"),
     "C15": ("exploration", "reference-oracle monitor over delegation trees with exact summary comparison",
-            "One failure mode injected into one delegated node of a depth 1-3 tree; positive controls compare the returned summary link with the value computed from the descriptor.",
+            "One failure mode injected into one delegated node of a depth 1-3 tree; positive controls compare the returned summary link with the value computed from the descriptor; surplus inner links, step names with pattern characters, inspections named like a step.",
             "ground truth by construction", "5 C15"),
     "C20": ("exploration", "round-trip / injectivity dictionary monitor + enumerated decoder inputs",
             "PAE pack/unpack (hook): round trip over a complete length sweep, payloads to 10 MB, comparison with an independent encoder, injectivity dictionary, ~10^6 enumerated decoder inputs must yield pair or error.",
